@@ -219,7 +219,7 @@ CHECKS.update({
              "every NeedImports list passes a de-duplication by resolved path; (live bindings) named/default imports are bound through an ImportBinding, "
              "exports that have a scope binding are published as getters and the stored value only on the no-binding edge, re-exports delegate; "
              "(termination) every cycle of the ready-module loop runs a module body and the runner removes its module from the pending table first. "
-             "All discharge on the current tree. That result and exports are equal for all supply orders is a matter of run-time values and not decided.",
+             "All discharge on the current tree. That result and exports are equal for all supply orders is a matter of run-time values and not decided. The schedule of module bodies is not taken from the iteration order of a hash table (repaired, fix: commit).",
         ref="4/C09"),
 })
 
